@@ -144,7 +144,7 @@ fn describe(op: &Op, pool: &[usize]) -> String {
 
 impl Monitor for C18 {
     fn rule(&self) -> &'static str {
-        "a case = one seeded history over a pool of 4-8 Regex objects (patterns chosen to touch groups, back-references, min-0 variable repeats that use the zero-length-match memo, anchors, \\p{Is..} blocks that use the process-wide lazy table): ~60 operations = is_match, replace_all, tokenize and analyze iterators that are opened, stepped a few times, kept alive across later calls and then drained, and drop + recompile. Each history runs (1) op by op on freshly compiled objects - the expected results -, (2) on shared objects in a shuffled order with all iterators interleaved, (3) from 2-8 threads sharing the objects, released by a barrier; the first history of every worker process races the initialisation of the block table from 8 threads. Every result must equal the fresh-object result; call/return stamps from one atomic counter give the number of overlapping call pairs. Non-trivial: every history (distinct by seed); a run without overlapping calls is inconclusive."
+        "a case = one seeded history over a pool of 4-8 Regex objects (patterns chosen to touch groups, back-references, min-0 variable repeats that use the zero-length-match memo, anchors, \\p{Is..} blocks that use the process-wide lazy table): ~60 operations = is_match, replace_all, tokenize and analyze iterators that are opened, stepped a few times, kept alive across later calls and then drained, and drop + recompile. Each history runs (1) op by op on freshly compiled objects - the expected results -, (2) on shared objects in a shuffled order with all iterators interleaved, (3) from 2-8 threads sharing the objects, released by a barrier; the first history of every worker process races the initialisation of the block table from 8 threads and runs the first-use-order probe (three child processes whose first block escape is none / XPath / XSD evaluate every block name in both dialects - compile outcome and membership of the block's first and last character - and must agree). Every result must equal the fresh-object result; call/return stamps from one atomic counter give the number of overlapping call pairs. Non-trivial: every history (distinct by seed); a run without overlapping calls is inconclusive."
     }
     fn check(&self, c: &Case, obs: &mut Obs) -> Outcome {
         let aux = c.aux.clone().unwrap_or_default();
@@ -154,6 +154,32 @@ impl Monitor for C18 {
         let nops: usize = it.next().and_then(|x| x.parse().ok()).unwrap_or(60);
         let race_init = it.next() == Some("init");
         if race_init {
+            // first-use order of the process-wide block table: the same battery (every block name
+            // of the repository's data files, both dialects: compile outcome + membership of the
+            // block's first and last character) is evaluated in three child processes whose first
+            // use of a block escape differs (none / an XPath regex / an XSD regex). The answers
+            // must not depend on which dialect initialised the table. Children are separate
+            // processes because a OnceLock cannot be reset inside one.
+            match primer_outputs() {
+                Some(outs) => {
+                    obs.count("first_use_order_probes");
+                    for k in 1..outs.len() {
+                        if outs[k].1 != outs[0].1 {
+                            let names = primer_labels();
+                            let a: Vec<char> = outs[0].1.chars().collect();
+                            let b: Vec<char> = outs[k].1.chars().collect();
+                            let i = (0..a.len().min(b.len())).find(|&i| a[i] != b[i]).unwrap_or(a.len().min(b.len()));
+                            let what = names.get(i).cloned().unwrap_or_else(|| "length".to_string());
+                            return Outcome::Violated(vec![Finding::new(
+                                "block_table_depends_on_first_use",
+                                format!("{}: outcome {:?} in a process primed with '{}'", what, b.get(i), outs[k].0),
+                                format!("outcome {:?} as in a process primed with '{}'", a.get(i), outs[0].0),
+                            )]);
+                        }
+                    }
+                }
+                None => obs.count("first_use_order_probe_unavailable"),
+            }
             // the very first use of a block name in this process, from 8 threads at once
             let barrier = Barrier::new(8);
             let results: Vec<Result<Vec<bool>, String>> = std::thread::scope(|s| {
@@ -516,4 +542,79 @@ impl Monitor for C18 {
         }
         J::obj().with("histories_this_shard", J::u(n))
     }
+}
+
+
+const PRIMERS: [&str; 3] = ["none", "xpath", "xsd"];
+
+fn primer_battery() -> Vec<(String, engine::Dialect, char, char)> {
+    let mut v = vec![];
+    for b in crate::uoracle::repo_blocks() {
+        let first = char::from_u32(b.start).unwrap_or('a');
+        let last = char::from_u32(b.end).unwrap_or('a');
+        for d in [engine::Dialect::XPath, engine::Dialect::Xsd] {
+            v.push((b.lookup.clone(), d, first, last));
+        }
+    }
+    v
+}
+
+fn primer_labels() -> Vec<String> {
+    let mut v = vec![];
+    for (n, d, _, _) in primer_battery() {
+        for part in ["compile", "first character", "last character"] {
+            v.push(format!("\\p{{Is{}}} {:?} {}", n, d, part));
+        }
+    }
+    v
+}
+
+/// `rxv primer <none|xpath|xsd>`: one line of outcome characters for the battery, evaluated after
+/// the named first use of a block escape in this (fresh) process.
+pub fn primer_main(mode: &str) -> i32 {
+    match mode {
+        "xpath" => {
+            let _ = engine::compile("\\p{IsGreek}", "", engine::Dialect::XPath);
+        }
+        "xsd" => {
+            let _ = engine::compile("\\p{IsGreek}", "", engine::Dialect::Xsd);
+        }
+        _ => {}
+    }
+    let mut out = String::new();
+    for (n, d, first, last) in primer_battery() {
+        match engine::compile(&format!("\\p{{Is{}}}", n), "", d) {
+            Ok(Ok(r)) => {
+                out.push('1');
+                for c in [first, last] {
+                    out.push(match engine::is_match(&r, &c.to_string()) {
+                        Ok(true) => 't',
+                        Ok(false) => 'f',
+                        Err(_) => 'P',
+                    });
+                }
+            }
+            Ok(Err(_)) => out.push_str("0--"),
+            Err(_) => out.push_str("P--"),
+        }
+    }
+    println!("{}", out);
+    0
+}
+
+fn primer_outputs() -> Option<Vec<(&'static str, String)>> {
+    let exe = std::env::current_exe().ok()?;
+    let mut outs = vec![];
+    for m in PRIMERS {
+        let o = std::process::Command::new(&exe).arg("primer").arg(m).output().ok()?;
+        if !o.status.success() {
+            return None;
+        }
+        let s = String::from_utf8_lossy(&o.stdout).trim().to_string();
+        if s.is_empty() {
+            return None;
+        }
+        outs.push((m, s));
+    }
+    Some(outs)
 }
